@@ -242,10 +242,11 @@ PROPS = {
         "streams": [
             {"name": "quote", "n_quick": 20000, "n_thorough": 1000000, "compare": True, "min_per_proc": 2000},
             {"name": "dialect", "n_quick": 4000, "n_thorough": 300000, "compare": False, "min_per_proc": 500},
+            {"name": "dialectdp", "n_quick": 600, "n_thorough": 30000, "compare": False, "min_per_proc": 100},
         ],
-        "rule": "quote: strings of length 0..6 over {a, b, space, ', \", \\, `, [, ], é, %, .} x {literal, identifier} x {PostgreSQL, SQLite, MySQL, MS SQL, BigQuery translators}: rendered text AND the value read back by the sqlparser dialect the library reads that target with, both compared with the Lean model instantiated from the generated dialect table; dialect: relations compiled from generated queries (see C14), a third of them with output columns renamed to awkward names (reserved words, spaces, dots, quotes of each style, brackets, leading digits, non-ASCII) x the eight translators: text accepted by sqlparser's parser for the dialect; read back by the library with the same dialect (7 dialects) with the same output names, order and types; SQLite text run on a plain SQLite connection (no user functions, no textual shims) with the rows of the reference execution; non-trivial = compiled",
+        "rule": "dialectdp: relations returned by rewrite_with_differential_privacy for generated aggregation queries (grouped by public-valued keys or not, joins along the privacy-unit path), rendered by the eight translators: accepted by the dialect's parser, read back with the same names, order and types; quote: strings of length 0..6 over {a, b, space, ', \", \\, `, [, ], é, %, .} x {literal, identifier} x {PostgreSQL, SQLite, MySQL, MS SQL, BigQuery translators}: rendered text AND the value read back by the sqlparser dialect the library reads that target with, both compared with the Lean model instantiated from the generated dialect table; dialect: relations compiled from generated queries (see C14), a third of them with output columns renamed to awkward names (reserved words, spaces, dots, quotes of each style, brackets, leading digits, non-ASCII) x the eight translators: text accepted by sqlparser's parser for the dialect; read back by the library with the same dialect (7 dialects) with the same output names, order and types; SQLite text run on a plain SQLite connection (no user functions, no textual shims) with the rows of the reference execution; non-trivial = compiled",
         "trusted_base": COMMON_TRUST + ["tools/tr_dialects.py + `oracle dump dialects` (calls the real identifier() of each translator and the real sqlparser dialect methods)", "sqlparser 0.46 parsers stand for 'the dialect's parser' (no MySQL / MS SQL / BigQuery / Hive / Databricks / Redshift engine exists offline)", "SQLite 3.40 as the one offline engine"],
-        "assumptions": ["relations come from the SQL reader over the harness tables; relations produced by DP rewriting are rendered for SQLite in the C01/C04/C05/C09 streams but are not cycled through the other seven dialects here"],
+        "assumptions": ["relations come from the SQL reader over the harness tables, or from the DP rewriting of generated aggregation queries (stream dialectdp: parser acceptance and read-back only; their execution on SQLite is in the C01/C04/C05/C09 streams, with user-function shims)"],
         "technique": "Lean 4 proof over a model of sqlparser's quoting and of its tokenizer with and without backslash escapes, instantiated by a dialect table regenerated from the real translators on every run (every reading dialect accepts the quote its translator writes; identifiers and literals read back unchanged under a decidable guard; kernel-checked counterexample for backslash in MySQL/BigQuery literals) + model/implementation correspondence on written text and read-back value + render / parse / read-back / execute checks across the eight translators",
         "level_text": "Theorems (Props/C17.lean) for strings of any length and every row of the generated dialect table: writer_quote_readable, ident_round_trip, literal_round_trip, write_read, write_read_backslash, backslash_counterexample. The tokenizer model agrees with the five dialects exercised on every generated string (text and value read back). Function spellings, casts and LIMIT/TOP forms are not modelled: for them the check renders generated relations in all eight dialects, parses them with sqlparser, reads them back with the library and, for SQLite, executes them.",
         "level_note": "Trusted: Lean kernel; the dialect dump. Modelled, not verified: per-dialect function tables (checked by the dialect stream only); engines other than SQLite are represented by sqlparser's dialect parsers.",
@@ -261,8 +262,9 @@ PROPS = {
             {"name": "rules", "n_quick": 600, "n_thorough": 60000, "compare": False, "min_per_proc": 200},
             {"name": "scope", "n_quick": 3000, "n_thorough": 300000, "compare": False, "min_per_proc": 500},
             {"name": "sizes", "n_quick": 3000, "n_thorough": 300000, "compare": True, "min_per_proc": 1000},
+            {"name": "dialectdp", "n_quick": 300, "n_thorough": 30000, "compare": False, "min_per_proc": 100},
         ],
-        "rule": "arith: integer intervals with bounds from {i64::MIN, MIN+1, -2^62, -3037000500, -32, -2..2, 6, 3037000500, 2^62, MAX-1, MAX} and small random bounds, float intervals with bounds from {f64::MIN, -2.5, -1e-300, -0.0, 0.0, 1e-300, 0.25, 2.5, f64::MAX}: type images of divide / multiply / plus / minus and absolute_upper_bound, panic-or-hull compared with the Lean totality model; total: generated queries (arithmetic incl. division, abs, exp, ln, sqrt, pow, CASE, casts, greatest, coalesce; aggregates incl. var / stddev; GROUP BY; joins) over a table with 16 extreme column types (full i64 / f64, ranges ending at or containing 0, single points, i64::MIN, 130-value sets, two-point {MIN, MAX}, nullable) x compile, schema, render (2 dialects), privacy-unit rewriting (Soft, Hard), DP rewriting with budgets from {1, 0, 1e-300, 1e300, inf} x {1e-5, 0, 1, 1e-300}; LIMIT / OFFSET from {0, 1, 999, 1000, 1001, 5000, 10^18, i64::MAX} against a 1000-row table; sizes: Map / Join / Set builders with sizes from {0, 1, 3, 10, 1000} and LIMIT / OFFSET 0..12 (declared size against the Lean size model); sqlx / c08x / dialect / rules / scope: the compile, render, read-back and rewriting phases of the other properties' streams, each under catch_unwind with a per-case watchdog; non-trivial = compiled",
+        "rule": "dialectdp: relations returned by rewrite_with_differential_privacy for generated aggregation queries (grouped by public-valued keys or not, joins along the privacy-unit path), rendered by the eight translators: accepted by the dialect's parser, read back with the same names, order and types; arith: integer intervals with bounds from {i64::MIN, MIN+1, -2^62, -3037000500, -32, -2..2, 6, 3037000500, 2^62, MAX-1, MAX} and small random bounds, float intervals with bounds from {f64::MIN, -2.5, -1e-300, -0.0, 0.0, 1e-300, 0.25, 2.5, f64::MAX}: type images of divide / multiply / plus / minus and absolute_upper_bound, panic-or-hull compared with the Lean totality model; total: generated queries (arithmetic incl. division, abs, exp, ln, sqrt, pow, CASE, casts, greatest, coalesce; aggregates incl. var / stddev; GROUP BY; joins) over a table with 16 extreme column types (full i64 / f64, ranges ending at or containing 0, single points, i64::MIN, 130-value sets, two-point {MIN, MAX}, nullable) x compile, schema, render (2 dialects), privacy-unit rewriting (Soft, Hard), DP rewriting with budgets from {1, 0, 1e-300, 1e300, inf} x {1e-5, 0, 1, 1e-300}; LIMIT / OFFSET from {0, 1, 999, 1000, 1001, 5000, 10^18, i64::MAX} against a 1000-row table; sizes: Map / Join / Set builders with sizes from {0, 1, 3, 10, 1000} and LIMIT / OFFSET 0..12 (declared size against the Lean size model); sqlx / c08x / dialect / rules / scope: the compile, render, read-back and rewriting phases of the other properties' streams, each under catch_unwind with a per-case watchdog; non-trivial = compiled",
         "trusted_base": COMMON_TRUST + ["std::panic::catch_unwind + the harness panic hook (location, message) as the observer of panics; a watchdog thread turns a hang into a reported failure"],
         "assumptions": ["the supported fragment is represented by the generators of the streams listed; constructs outside them are not exercised", "overflow checks are on in the harness build (debug profile), as in a debug build of the library"],
         "technique": "Lean 4 proof over a model of the i64 / f64 corner arithmetic behind type images (saturating + - * are total, ordered and in range, so the interval assertion cannot fire on integers; the integer-division image panics iff the divisor interval contains 0; a NaN corner of the float-division image exists iff both intervals contain 0; abs-based bound panics iff a bound is i64::MIN, the repaired one is total) + model/implementation correspondence on panic-or-hull at the range edges + catch_unwind / watchdog over every public entry point on generated queries and extreme schemas",
